@@ -99,6 +99,82 @@ func scratchCopy(repo string) (string, error) {
 	return dir, err
 }
 
+// runNeutralTest applies every behaviour-preserving refactoring of /verif/refactors to a scratch copy and
+// requires that the property's check reports nothing it does not already report on the tree itself.
+func runNeutralTest(prop, repo string, baseKeys map[string]bool) ([]selfTestResult, bool) {
+	vd := verifDir()
+	ents, err := os.ReadDir(filepath.Join(vd, "refactors"))
+	if err != nil {
+		return nil, true
+	}
+	exe, _ := os.Executable()
+	var ids []string
+	for _, e := range ents {
+		if e.IsDir() {
+			ids = append(ids, e.Name())
+		}
+	}
+	results := make([]selfTestResult, len(ids))
+	sem := make(chan struct{}, 6)
+	var wg sync.WaitGroup
+	for i, id := range ids {
+		wg.Add(1)
+		go func(i int, id string) {
+			defer wg.Done()
+			sem <- struct{}{}
+			defer func() { <-sem }()
+			res := selfTestResult{Name: "neutral:" + id}
+			defer func() { results[i] = res }()
+			dir, err := scratchCopy(repo)
+			defer os.RemoveAll(dir)
+			if err != nil {
+				res.Status = "skipped(copy)"
+				return
+			}
+			patch := filepath.Join(vd, "refactors", id, "patch.diff")
+			pc := exec.Command("patch", "-p1", "-s", "-F0", "-i", patch)
+			pc.Dir = dir
+			if out, err := pc.CombinedOutput(); err != nil {
+				_ = out
+				res.Status = "skipped(anchor)"
+				return
+			}
+			cmd := exec.Command(exe, "-property", prop, "-tier", "quick", "-repo", dir, "-no-evidence")
+			cmd.Env = append(os.Environ(), "VERIF_DIR="+vd, "SPECVET_NOREPLAY=1")
+			out, _ := cmd.CombinedOutput()
+			txt := string(out)
+			if strings.Contains(txt, "CHECKER-ERROR") && strings.Contains(txt, "type/load errors") {
+				res.Status = "skipped(no-compile)"
+				return
+			}
+			var fresh []string
+			for _, line := range strings.Split(txt, "\n") {
+				if strings.HasPrefix(line, "VIOLATED ") || strings.HasPrefix(line, "UNDECIDED ") {
+					f := strings.Fields(line)
+					if len(f) > 1 && !baseKeys[f[1]] {
+						fresh = append(fresh, f[1])
+					}
+				}
+			}
+			if len(fresh) > 0 {
+				res.Status = "FALSE-ALARM"
+				res.Matched = strings.Join(fresh, ",")
+				return
+			}
+			res.Status = "silent"
+		}(i, id)
+	}
+	wg.Wait()
+	ok := true
+	for _, r := range results {
+		if r.Status == "FALSE-ALARM" {
+			fmt.Printf("selftest %-60s %s %s\n", r.Name, r.Status, r.Matched)
+			ok = false
+		}
+	}
+	return results, ok
+}
+
 func runSelfTest(prop, repo string) ([]selfTestResult, bool) {
 	vd := verifDir()
 	corpus, err := loadCorpus(vd, prop)
